@@ -4,9 +4,14 @@ Fuzzing with the exception class as the monitor.  Python side (plain build):
 FFI().cdef(text) / FFI().typeof(text); anything but CDefError / FFIError /
 NotImplementedError / VerificationError / VerificationMissing that escapes is a
 violation keyed by (exception type, innermost raising function inside cffi).
+Besides single calls on a fresh FFI: cdef() options, and histories of calls on
+one FFI object (state left by failed calls, types completed by the backend and
+re-completed by a later cdef, cached type strings), every call judged.
 C side (ASan/UBSan build): typeof(text) on _cffi_backend.FFI() and on imported
-emit_python_code() modules with populated contexts; sanitizer reports and
-crashes decide, attributed to the single input that produced them.  Optional
+emit_python_code() modules with populated contexts (one with functions and
+variables); sanitizer reports and crashes decide, attributed to the single
+input that produced them; the error location shown in ffi.error messages must
+lie inside the string.  Optional
 third part: a libFuzzer target around src/c/parse_c_type.c.
 """
 import os, sys, re, json, random, struct, subprocess, functools
@@ -17,10 +22,20 @@ RULE = ("input = (api, text): grammar-generated declarations / type strings (typ
         "extern \"Python\", __stdcall, [...], line directives), their token-level mutants "
         "(delete/duplicate/swap/replace/insert from a dictionary of cffi trivia and internal "
         "markers), byte-level mutants (NUL, controls, non-ASCII, long tokens, bounded nesting, "
-        "truncation) ; Python side: fresh FFI per input, with or without a prelude cdef; C side: "
+        "truncation), re-declarations of names already declared (verbatim, other definition, other "
+        "kind), forward declarations, type strings that leave the 'void __dummy(...)' wrapper "
+        "('T); D ('), names of functions/variables where a constant is expected ; Python side: "
+        "fresh FFI per input, with or without a prelude cdef, cdef() with override/packed/pack "
+        "and embedding_api(); histories of 2..10 cdef()/typeof() calls on ONE FFI (after none / "
+        "a prelude cdef / ffi.include() of the prelude: failed calls in between, type strings "
+        "using the names declared so far so that the backend completes them, the same string "
+        "again, opaque type used and then completed, options per call), each call judged; C side: "
         "typeof on an empty _cffi_backend.FFI() and on out-of-line modules built from generated "
-        "contexts (type strings use the context's typedef/struct/enum/constant names; inputs "
-        "reaching the 1200-opcode limit and the realize recursion limit, lone surrogates); "
+        "contexts, one of them with functions and global variables (type strings use the "
+        "context's typedef/struct/enum/constant/function/variable names; the same string again "
+        "on the same object; inputs reaching the 1200-opcode limit and the realize recursion "
+        "limit, lone surrogates), the '^' of every parser error message must lie inside the "
+        "string; "
         "libFuzzer target on parse_c_type.c with empty/populated contexts and output arrays of "
         "1..1200 entries (counted in evaluations as executed units); distinct = (api/target kind, "
         "text); non-trivial = non-empty text")
@@ -40,7 +55,7 @@ PRELUDE = ("typedef struct foo_s { int a; char b[8]; struct foo_s *next; } foo_t
            "typedef union { int i; float f; } u_t;\nenum e1 { A1, B1 = 5, C1 };\n#define K1 4\n"
            "static const int K2 = 7;\ntypedef int (*fn_t)(int, char *);\nstruct opaque_s;\n"
            "typedef struct { int x; ...; } partial_t;\ntypedef int... anyint_t;\n"
-           "typedef ... opaque_t;\n")
+           "typedef ... opaque_t;\nint pf1(int, char *);\nextern long pv1;\n")
 
 # ---------------------------------------------------------------------------
 # generators (pure Python; used by parent and children)
@@ -85,13 +100,17 @@ _TOK = re.compile(r'\.\.\.|[A-Za-z_$][A-Za-z_0-9$]*|0[xX][0-9a-fA-F]*|\d+|\s+|.'
 
 class Env(object):
     """names a type string / declaration may refer to"""
-    def __init__(self, typedefs=(), structs=(), unions=(), enums=(), consts=()):
+    def __init__(self, typedefs=(), structs=(), unions=(), enums=(), consts=(), globs=()):
         self.typedefs, self.structs, self.unions = list(typedefs), list(structs), list(unions)
         self.enums, self.consts = list(enums), list(consts)
+        self.globs = list(globs)        # functions and variables: globals that are NOT constants
+        self.texts = []                 # declarations made so far (for verbatim re-declaration)
         self.n = 0
 
     def copy(self):
-        return Env(self.typedefs, self.structs, self.unions, self.enums, self.consts)
+        e = Env(self.typedefs, self.structs, self.unions, self.enums, self.consts, self.globs)
+        e.n, e.texts = self.n, list(self.texts)
+        return e
 
     def fresh(self, stem):
         self.n += 1
@@ -99,7 +118,7 @@ class Env(object):
 
 
 PY_ENV = Env(['foo_t', 'u_t', 'fn_t', 'partial_t', 'anyint_t', 'opaque_t'], ['foo_s', 'opaque_s'],
-             [], ['e1'], ['K1', 'K2', 'A1', 'B1', 'C1'])
+             [], ['e1'], ['K1', 'K2', 'A1', 'B1', 'C1'], ['pf1', 'pv1'])
 
 
 def g_lit(r):
@@ -121,14 +140,17 @@ def g_expr(r, env, depth=0, cparser=False):
     if cparser:
         if f < 0.55:
             return g_lit(r) if r.random() < 0.8 else '%d' % r.choice([0, 1, 2, 3, 4, 8, 16])
-        if f < 0.85 and env.consts:
-            return r.choice(env.consts)
+        if f < 0.85 and (env.consts or env.globs):
+            return r.choice(env.globs if env.globs and (not env.consts or r.random() < 0.25)
+                            else env.consts)
         return r.choice(['-1', '-0', 'nosuch', '1+1', '...', '', '9223372036854775807',
                          '9223372036854775808', '18446744073709551616', '0x7fffffffffffffff',
                          '0xffffffffffffffff', '1 2', 'int', '*'])
     if depth > 3 or f < 0.4:
         return g_lit(r)
     if f < 0.5:
+        if env.globs and r.random() < 0.12:
+            return r.choice(env.globs)
         return r.choice(env.consts) if env.consts and r.random() < 0.8 else 'nosuchconst'
     if f < 0.58:
         return r.choice('+-') + g_expr(r, env, depth + 1)
@@ -154,7 +176,8 @@ def g_base(r, env, inline_ok=True):
     if f < 0.5 or (f < 0.92 and not names and r.random() < 0.8):
         return r.choice(PRIMS[:40]) if r.random() < 0.85 else r.choice(PRIMS)
     if f < 0.65:
-        return r.choice(env.typedefs) if env.typedefs and r.random() < 0.9 else 'nosuch_t'
+        return r.choice(env.typedefs) if env.typedefs and r.random() < 0.9 else \
+            r.choice(env.globs + env.consts + ['nosuch_t'] * 3)
     if f < 0.78:
         return 'struct ' + (r.choice(env.structs) if env.structs and r.random() < 0.85 else
                             r.choice(env.unions + ['nosuch_s', '', 'int', '$1', '_IO_FILE']))
@@ -198,8 +221,86 @@ def g_type(r, env, inner='', depth=0, cparser=False, inline_ok=True):
     return ('%s%s %s' % (r.choice(quals), g_base(r, env, inline_ok and not cparser), s)).strip()
 
 
+def g_redecl(r, env):
+    """declares AGAIN a name the environment already has: the same text verbatim, the same kind
+    with another definition (completing an opaque struct, another value), or another kind"""
+    if env.texts and r.random() < 0.3:
+        return r.choice(env.texts)
+    kinds = [k for k in ('typedefs', 'structs', 'unions', 'enums', 'consts', 'globs')
+             if getattr(env, k)]
+    if not kinds:
+        return 'typedef int td_again; typedef int td_again; typedef long td_again;'
+    k = r.choice(kinds)
+    nm = r.choice(getattr(env, k))
+    if r.random() < 0.12:
+        k = r.choice(['typedefs', 'structs', 'unions', 'enums', 'consts', 'globs'])
+    if k == 'typedefs':
+        return r.choice(['typedef %s;' % g_type(r, env, nm), 'typedef int %s;' % nm,
+                         'typedef ... %s;' % nm, 'typedef struct { int a; } %s;' % nm,
+                         'typedef int... %s;' % nm, 'typedef ... *%s;' % nm,
+                         'typedef struct %s %s;' % (nm, nm), 'typedef int %s[...];' % nm])
+    if k in ('structs', 'unions'):
+        kw = 'struct' if (k == 'structs') ^ (r.random() < 0.1) else 'union'
+        return _fmt_agg(r, kw, nm, g_fields(r, env, kw, nm))
+    if k == 'enums':
+        items = ['%s_R%d%s' % (nm.upper(), i, r.choice(['', '', ' = ' + g_expr(r, env), ' = ...']))
+                 for i in range(r.choice([0, 1, 2, 3]))]
+        if env.consts and r.random() < 0.3:
+            items.append(r.choice(env.consts))
+        return 'enum %s { %s%s };' % (nm, ', '.join(items), r.choice(['', '', ', ...']))
+    if k == 'consts':
+        return r.choice(['#define %s %s' % (nm, r.choice([g_lit(r), '...', '...', '4', '7', '5'])),
+                         'static const int %s = %s;' % (nm, g_lit(r)),
+                         'enum { %s = %s };' % (nm, g_lit(r)), 'enum { %s };' % nm,
+                         'static const int %s;' % nm, 'static const long %s = ...;' % nm,
+                         'extern int %s;' % nm, 'int %s(void);' % nm, 'typedef int %s;' % nm])
+    return r.choice(['int %s(int);' % nm, 'extern long %s;' % nm, 'extern int %s[];' % nm,
+                     g_type(r, env, '%s(void)' % nm, 2) + ';', 'extern "Python" int %s(int);' % nm,
+                     'extern "Python+C" int %s(int, int);' % nm, '#define %s ...' % nm,
+                     'static const int %s = 3;' % nm, 'int %s(int, ...);' % nm,
+                     'extern %s;' % g_type(r, env, nm)])
+
+
+def g_fields(r, env, kw, nm):
+    flds = []
+    for i in range(r.choice([0, 1, 1, 2, 3])):
+        f = r.random()
+        flds.append('%s r%d : %s;' % (r.choice(['int', 'unsigned', 'long long', 'char', 'short']),
+                                      i, r.choice(['1', '3', '7', '9', '15', '31', '33', '63',
+                                                   '0', g_expr(r, env)]))
+                    if f < 0.3 else r.choice(['...;', 'int : 0;', '%s %s *self;' % (kw, nm),
+                                              '%s %s me;' % (kw, nm), 'char fl[];'])
+                    if f < 0.42 else r.choice(['int', 'char', 'long long', 'double', 'void *',
+                                               'short']) + ' r%d;' % i
+                    if f < 0.7 else g_type(r, env, 'r%d' % i) + ';')
+    return ' '.join(flds)
+
+
+def _fmt_agg(r, kw, nm, flds):
+    f = r.random()
+    if f < 0.6:
+        return '%s %s { %s };' % (kw, nm, flds)
+    if f < 0.72:
+        return '%s %s;' % (kw, nm)
+    if f < 0.86:
+        return 'typedef %s %s { %s } *%s_p%d;' % (kw, nm, flds, nm, r.randrange(1000))
+    return 'extern %s %s { %s } %s_v%d;' % (kw, nm, flds, nm, r.randrange(1000))
+
+
 def g_decl(r, env):
-    """one declaration; names it defines are added to env"""
+    """one declaration; names it defines are added to env; sometimes a re-declaration"""
+    if r.random() < 0.1 and (env.texts or env.typedefs or env.structs or env.consts):
+        return g_redecl(r, env)
+    t = g_decl_new(r, env)
+    if len(t) < 400:
+        if len(env.texts) >= 12:
+            del env.texts[r.randrange(12)]
+        env.texts.append(t)
+    return t
+
+
+def g_decl_new(r, env):
+    """one declaration of fresh names; names it defines are added to env"""
     k = r.random()
     if k < 0.16:
         nm = env.fresh('td_')
@@ -258,6 +359,7 @@ def g_decl(r, env):
                                                 ' = -' + g_lit(r), ' = ...', ' = {1}']))
     if k < 0.76:
         nm = env.fresh('fn_')
+        env.globs.append(nm)
         args = [g_type(r, env, r.choice(['', 'a%d' % i]), 1) for i in range(r.choice([0, 1, 2, 3]))]
         if r.random() < 0.15:
             args.append('...')
@@ -277,8 +379,15 @@ def g_decl(r, env):
         return proto + ';'
     if k < 0.88:
         nm = env.fresh('gv_')
+        env.globs.append(nm)
         return '%s%s%s;' % (r.choice(['extern ', 'extern ', '', 'static ']), g_type(r, env, nm),
                             r.choice(['', '', '', ' = 0', ' = {1, 2}']))
+    if r.random() < 0.25:       # opaque now; a later declaration may complete it
+        kind = r.choice(['struct', 'struct', 'union', 'enum'])
+        nm = env.fresh('fw_')
+        {'struct': env.structs, 'union': env.unions, 'enum': env.enums}[kind].append(nm)
+        return r.choice(['%s %s;', 'typedef %s %s *%s_ptr;', 'extern %s %s *%s_var;',
+                         '%s %s *%s_get(void);']).replace('%s_', nm + '_') % (kind, nm)
     return r.choice(['# 1 "some/file.h"', '#line 12 "x.h"', '# 5', '#pragma pack(1)',
                      '/* comment ; */', '// line comment', 'typedef int... ti_%d;' % env.n,
                      'typedef float... tf_%d;' % env.n, 'typedef ... to_%d;' % env.n,
@@ -351,9 +460,37 @@ def mutate_bytes(r, text, maxnest=60):
     return ''.join(s)
 
 
-def gen_input(r, env0, api, cparser=False, maxnest=60):
-    """-> (kind, text)"""
-    env = env0.copy()
+ESCAPE_TAILS = ['= (1', '= (', '(int', '(', '[sizeof(int', '[(3', '= sizeof(int', ', w9 = (2', ': (3',
+                '{ int a[(1', '']
+
+
+def g_escape(r, env):
+    """a type string that ends the construct cffi wraps type strings into and starts another
+    declaration which the wrapper's tail completes: 'T); D (' (cffi parses 'void __dummy(\n%s\n);')"""
+    d = g_decl_new(r, env.copy()).rstrip().rstrip(';')
+    if r.random() < 0.5:
+        d = r.choice(['int v9', 'typedef int (q9', 'struct s9 { int a; } x9', 'enum { E9A } y9',
+                      'void g9', 'int h9(void), k9', 'static const int c9', 'typedef struct s8 t8',
+                      'extern int a9[3]'])
+    return '%s)%s %s %s' % (g_type(r, env, r.choice(['', '', 'x'])) if r.random() < 0.8 else '',
+                            r.choice([';', ';', '', ' {}', ';;']), d, r.choice(ESCAPE_TAILS))
+
+
+def g_opts(r):
+    """keyword arguments of cdef(); 'embedding' stands for FFI.embedding_api()"""
+    if r.random() < 0.7:
+        return {}
+    return dict(r.choice([{'override': True}, {'override': True}, {'packed': True}, {'pack': 1},
+                          {'pack': 2}, {'pack': 4}, {'pack': 16}, {'embedding': True},
+                          {'override': True, 'packed': True}, {'embedding': True, 'pack': 2},
+                          {'packed': False, 'pack': None, 'override': False}]))
+
+
+def gen_input(r, env0, api, cparser=False, maxnest=60, keep_env=False):
+    """-> (kind, text); keep_env: names declared by the text stay in env0 (histories)"""
+    env = env0 if keep_env else env0.copy()
+    if api == 'typeof' and not cparser and r.random() < 0.05:
+        return 'wrapper-escape', g_escape(r, env)
     text = g_type(r, env, r.choice(['', '', '', 'x']), cparser=True) if cparser else \
         g_text(r, env, api)
     k = r.random()
@@ -369,10 +506,13 @@ def gen_input(r, env0, api, cparser=False, maxnest=60):
 
 
 def py_inputs(case):
-    """[api, text, with_prelude, kind] for a Python-side case"""
+    """Python-side units of a case: [api, text, with_prelude, kind(, cdef options)], one fresh FFI
+    each; or, for case['seq'], histories {'setup':.., 'steps': [[api, text, options, kind], ...]}"""
     if 'explicit' in case:
         return case['explicit']
     r = random.Random(case['seed'])
+    if case.get('seq'):
+        return [g_sequence(r) for _ in range(case['n'])]
     out = []
     for _ in range(case['n']):
         api = 'cdef' if r.random() < 0.6 else 'typeof'
@@ -380,14 +520,68 @@ def py_inputs(case):
             kind, text = gen_input(r, PY_ENV, 'typeof' if api == 'cdef' else 'cdef')
         else:
             kind, text = gen_input(r, PY_ENV, api)
-        out.append([api, text, r.random() < 0.55, kind])
+        out.append([api, text, r.random() < 0.55, kind] +
+                   ([g_opts(r)] if api == 'cdef' and r.random() < 0.5 else []))
     return out
+
+
+def g_use(r, env):
+    """a type string that makes the backend build (complete) a type declared earlier"""
+    f = r.random()
+    pool = ['struct ' + n for n in env.structs] + ['union ' + n for n in env.unions] + \
+        ['enum ' + n for n in env.enums] + env.typedefs
+    if not pool or f < 0.1:
+        return g_type(r, env, '')
+    b = r.choice(pool[-8:] if r.random() < 0.6 else pool)
+    return b + r.choice(['', '', '', ' *', '[2]', '[]', ' *(*)(int)', '(*)(%s)' % b, ' **',
+                         ' const', '(*)(%s, ...)' % b, '[K1]', '[%s]' % g_expr(r, env)])
+
+
+def g_sequence(r):
+    """a history of cdef()/typeof() calls on ONE FFI object: declarations (with options) that may
+    fail half-way, type strings using the names declared so far (the backend completes the
+    types), the same type string again (cached), re-declarations and completions of opaque types
+    after they were used"""
+    setup = r.choice(['none', 'none', 'prelude', 'prelude', 'include'])
+    env = Env() if setup == 'none' else PY_ENV.copy()
+    steps, asked = [], []
+    for _ in range(r.choice([2, 3, 3, 4, 5, 6, 8])):
+        k = r.random()
+        if k < 0.1:         # an opaque type is used, then completed
+            kw = r.choice(['struct', 'struct', 'union'])
+            nm = env.fresh('op_')
+            steps.append(['cdef', r.choice(['%s %s;', 'typedef %s %s *%s_ptr;', '%s %s *%s_get(void);',
+                                            'extern %s %s *%s_var;']).replace('%s_', nm + '_') %
+                          (kw, nm), {}, 'opaque-first'])
+            steps.append(['typeof', '%s %s%s' % (kw, nm, r.choice(['', ' *', ' *', ' **', '(*)(void)',
+                                                                   ' *[3]'])), {}, 'use-declared'])
+            steps.append(['cdef', _fmt_agg(r, kw, nm, g_fields(r, env, kw, nm)), g_opts(r),
+                          'complete-after-use'])
+            (env.structs if kw == 'struct' else env.unions).append(nm)
+            asked.append(steps[-2][1])
+        elif k < 0.45:
+            kind, text = gen_input(r, env, 'cdef', keep_env=True)
+            steps.append(['cdef', text, g_opts(r), kind])
+        elif k < 0.55:
+            steps.append(['cdef', g_redecl(r, env), g_opts(r), 'redeclare'])
+        elif k < 0.75:
+            steps.append(['typeof', g_use(r, env), {}, 'use-declared'])
+            asked.append(steps[-1][1])
+        elif k < 0.85 and asked:
+            steps.append(['typeof', r.choice(asked), {}, 'repeat'])
+        else:
+            kind, text = gen_input(r, env, 'typeof', keep_env=True)
+            steps.append(['typeof', text, {}, kind])
+            asked.append(text)
+    return {'setup': setup, 'steps': steps}
 
 
 @functools.lru_cache(maxsize=None)
 def ctx_of(seed):
     rnd = random.Random(seed)
-    return GC.Ctx(rnd, prefix='m%d_' % (seed % 1000), nd=14, funcs=False, globals_=False)
+    full = bool(seed & 1)       # odd seeds: the context also has functions and global variables
+    return GC.Ctx(rnd, prefix='m%d_' % (seed % 1000), nd=22 if full else 14, funcs=full,
+                  globals_=full)
 
 
 @functools.lru_cache(maxsize=None)
@@ -399,7 +593,8 @@ def env_of(seed):
     return Env([d['name'] for d in c.typedefs],
                [a['name'] for a in c.g.decls if a['name'] and a['kind'] == 'struct'],
                [a['name'] for a in c.g.decls if a['name'] and a['kind'] == 'union'],
-               [d['name'] for d in c.enums], consts)
+               [d['name'] for d in c.enums], consts,
+               [d['name'] for d in c.funcs] + [d['name'] for d in c.globs])
 
 
 def modname_of(seed):
@@ -420,6 +615,10 @@ def c_inputs(r, n, seeds, limits=False):
     """[target, text, kind] (parent side); target = index into seeds or -1 (empty FFI)"""
     out = []
     for _ in range(n):
+        if out and r.random() < 0.07:       # the same string again on the same FFI object
+            tg, text, _ = out[-r.randrange(1, min(len(out), 40) + 1)]
+            out.append([tg, text, 'repeat'])
+            continue
         tg = r.randrange(len(seeds)) if seeds and r.random() < 0.6 else -1
         env = env_of(seeds[tg] if tg >= 0 else None)
         kind, text = gen_input(r, env, 'typeof', cparser=r.random() < 0.85, maxnest=r.choice(
@@ -454,6 +653,8 @@ def child_setup(setup, wd):
     from vlib.child import _san_files
     sys.path.insert(0, setup['moddir'])
     st['mods'] = [importlib.import_module(modname_of(s)).ffi for s in setup['ctx']]
+    st['globs_re'] = [re.compile(r'\[\s*(?:%s)\s*\]' % '|'.join(env_of(s).globs)) if env_of(s).globs
+                      else None for s in setup['ctx']]
     # the sanitizer runtime opens its log with O_CREAT|O_TRUNC at the first report: pre-create
     # it so that growth can be seen with one lseek() per input (stat() is slow under ASan)
     st['logs'] = []
@@ -490,41 +691,112 @@ def raising_site(e):
     return site, below
 
 
+def py_call(ffi, api, text, opts):
+    if api == 'typeof':
+        return ffi.typeof(text)
+    opts = dict(opts)
+    if opts.pop('embedding', False):
+        return ffi.embedding_api(text, **opts)
+    return ffi.cdef(text, **opts)
+
+
+def opts_key(opts):
+    return '+'.join(sorted(k for k, v in opts.items() if v)) or 'none'
+
+
+def judged_py_call(rep, ffi, api, text, opts, detail, where):
+    """one cdef()/typeof() call under the oracle of the statement"""
+    try:
+        res = py_call(ffi, api, text, opts)
+        rep.stat('py_%s_ok' % api)
+        if api == 'typeof' and type(res).__name__ not in ('CType', 'CTypeDescr'):
+            rep.bad('typeof-returned-non-ctype', 'FFI().typeof(%r)%s returned %r' % (text, where, res),
+                    detail)
+    except (MemoryError, RecursionError) as e:
+        rep.stat('resource_py_' + type(e).__name__)
+    except Exception as e:
+        name = type(e).__name__
+        if (name in PY_ALLOWED and type(e).__module__ == 'cffi') or \
+                type(e) is NotImplementedError:
+            rep.stat('py_%s_raised_%s' % (api, name))
+            return
+        site, below = raising_site(e)
+        mech = 'escape:%s@%s%s' % (name, site, '>' + below if below else '')
+        rep.stat('py_%s_escaped_%s' % (api, name))
+        rep.bad(mech, 'FFI().%s(%r%s)%s raised %s: %s' % (
+            api, text if len(text) < 300 else text[:300] + '...',
+            ''.join(', %s=%r' % kv for kv in sorted(opts.items())), where, name, str(e)[:200]),
+            detail)
+
+
 def run_py(st, case, rep):
     import faulthandler
     from cffi import FFI
     prog = open_progress(st, case)
-    for i, (api, text, prelude, kind) in enumerate(py_inputs(case)):
+    if case.get('seq'):
+        return run_py_seq(st, case, rep, prog, FFI, faulthandler)
+    for i, unit in enumerate(py_inputs(case)):
+        api, text, prelude, kind = unit[:4]
+        opts = unit[4] if len(unit) > 4 else {}
         if i % 16 == 0:
             faulthandler.dump_traceback_later(WATCHDOG, exit=True)
         prog[0:8] = struct.pack('<II', MAGIC, i)
-        rep.case(('py', api, prelude, text), nontrivial=bool(text.strip()),
+        rep.case(('py', api, prelude, text, opts_key(opts)), nontrivial=bool(text.strip()),
                  sample={'api': api, 'kind': kind, 'text': text[:200]})
         rep.stat('py_%s_%s' % (api, kind))
-        detail = [api, text, prelude, kind]
-        try:
-            ffi = FFI()
-            if prelude:
-                ffi.cdef(PRELUDE)
-            res = ffi.cdef(text) if api == 'cdef' else ffi.typeof(text)
-            rep.stat('py_%s_ok' % api)
-            if api == 'typeof' and type(res).__name__ not in ('CType', 'CTypeDescr'):
-                rep.bad('typeof-returned-non-ctype', 'FFI().typeof(%r) returned %r' % (text, res),
-                        detail)
-        except (MemoryError, RecursionError) as e:
-            rep.stat('resource_py_' + type(e).__name__)
-        except Exception as e:
-            name = type(e).__name__
-            if (name in PY_ALLOWED and type(e).__module__ == 'cffi') or \
-                    type(e) is NotImplementedError:
-                rep.stat('py_%s_raised_%s' % (api, name))
-                continue
-            site, below = raising_site(e)
-            mech = 'escape:%s@%s%s' % (name, site, '>' + below if below else '')
-            rep.stat('py_%s_escaped_%s' % (api, name))
-            rep.bad(mech, 'FFI().%s(%r)%s raised %s: %s' % (
-                api, text if len(text) < 300 else text[:300] + '...', ' after the prelude cdef'
-                if prelude else '', name, str(e)[:200]), detail)
+        if opts:
+            rep.stat('py_cdef_option_' + opts_key(opts))
+        ffi = FFI()
+        if prelude:
+            ffi.cdef(PRELUDE)
+        judged_py_call(rep, ffi, api, text, opts, list(unit),
+                       ' after the prelude cdef' if prelude else '')
+    faulthandler.cancel_dump_traceback_later()
+    prog[0:8] = struct.pack('<II', 0, 0)
+    prog.close()
+
+
+def run_py_seq(st, case, rep, prog, FFI, faulthandler):
+    import zlib
+    for i, seq in enumerate(py_inputs(case)):
+        if i % 4 == 0:
+            faulthandler.dump_traceback_later(WATCHDOG, exit=True)
+        prog[0:8] = struct.pack('<II', MAGIC, i)
+        ffi = FFI()
+        if seq['setup'] == 'prelude':
+            ffi.cdef(PRELUDE)
+        elif seq['setup'] == 'include':
+            base = FFI()
+            base.cdef(PRELUDE)
+            ffi.include(base)
+        rep.stat('pyseq_histories')
+        rep.stat('pyseq_setup_' + seq['setup'])
+        h = zlib.crc32(seq['setup'].encode())
+        seen, failed_before, typeofs = set(), False, 0
+        for j, (api, text, opts, kind) in enumerate(seq['steps']):
+            h = zlib.crc32(('%s|%s|%s' % (api, opts_key(opts), text)).encode('utf-8', 'replace'), h)
+            rep.case(('pyseq', h), nontrivial=bool(text.strip()),
+                     sample={'api': api, 'kind': kind, 'text': text[:200], 'step': j})
+            rep.stat('pyseq_%s_%s' % (api, kind))
+            if opts:
+                rep.stat('pyseq_cdef_option_' + opts_key(opts))
+            if api == 'cdef' and typeofs:
+                rep.stat('pyseq_cdef_after_typeof')
+            if failed_before:
+                rep.stat('pyseq_step_after_failed_step')
+            if (api, text) in seen:
+                rep.stat('pyseq_same_text_again')
+            seen.add((api, text))
+            typeofs += api == 'typeof'
+            ok0 = rep.stats.get('py_%s_ok' % api, 0)
+            judged_py_call(rep, ffi, api, text, opts,
+                           {'setup': seq['setup'], 'steps': seq['steps'][:j + 1]},
+                           ' as call %d of a history on one FFI (setup: %s; earlier calls: %s)' % (
+                               j + 1, seq['setup'], ', '.join(
+                                   '%s(%r)' % (a, t if len(t) < 80 else t[:80] + '...')
+                                   for a, t, _, _ in seq['steps'][:j]) or 'none'))
+            if rep.stats.get('py_%s_ok' % api, 0) == ok0:
+                failed_before = True
     faulthandler.cancel_dump_traceback_later()
     prog[0:8] = struct.pack('<II', 0, 0)
     prog.close()
@@ -543,6 +815,21 @@ def new_san(st):
     return txt
 
 
+def error_location_problem(full, text):
+    """the parser's error message shows the string and a '^' under the place of the error
+    (_ffi_bad_type): a place behind the end of the string means the parser left the string"""
+    lines = full.split('\n')
+    if len(lines) != 3 or not lines[2].endswith('^'):
+        return None         # strings of more than 500 bytes are not shown
+    raw = text.encode('utf-8', 'surrogatepass').split(b'\0')[0]
+    if len(lines[1]) != len(raw):
+        return 'the message shows %d characters for a string of %d bytes' % (len(lines[1]), len(raw))
+    if len(lines[2]) - 1 > len(raw) or lines[2].strip(' ') != '^':
+        return 'the error is located at offset %d of a string of %d bytes' % (len(lines[2]) - 1,
+                                                                             len(raw))
+    return None
+
+
 def run_c(st, case, rep):
     import _cffi_backend
     CType = _cffi_backend.CType
@@ -558,6 +845,10 @@ def run_c(st, case, rep):
         rep.case(('c', where, text), nontrivial=bool(text.strip()),
                  sample={'target': where, 'kind': kind, 'text': text[:200]})
         rep.stat('c_%s_%s' % (where, kind))
+        if tg >= 0 and st['globs_re'][tg] is not None:
+            rep.stat('c_ctx_with_functions_and_variables')
+            if st['globs_re'][tg].search(text):
+                rep.stat('c_array_length_names_function_or_variable')
         detail = [tg, text, kind]
         shown = text if len(text) < 300 else text[:200] + '...(%d chars)' % len(text)
         try:
@@ -572,6 +863,10 @@ def run_c(st, case, rep):
             name = type(e).__name__
             msg = str(e).split('\n')[0]
             if isinstance(e, ffi.error):
+                bad_loc = error_location_problem(str(e), text)
+                if bad_loc:
+                    rep.bad('c-error-location-outside-string', 'typeof(%r) on %s: %s; message: %r' % (
+                        shown, on, bad_loc, str(e)[:700]), detail)
                 key = 'c_err:' + _NORM.sub('N', msg)[:60]
                 rep.stat(key if key in rep.stats or sum(k.startswith('c_err:') for k in rep.stats)
                          < 70 else 'c_err:(other)')
@@ -633,7 +928,14 @@ def absorb_side(ctx, side, setup, cases, obs, requeue):
         rc = {'side': side, 'explicit': [detail], 'no': 0}
         if side == 'c':
             rc['ctx'] = setup['ctx']
+            if detail[2] == 'repeat':       # the same string three times on the same object
+                rc['explicit'] = [detail] * 3
+        if isinstance(detail, dict):
+            rc['seq'] = True
         return rc
+
+    def text_of(detail):
+        return ' ;; '.join(st[1] for st in detail['steps']) if isinstance(detail, dict) else detail[1]
     for c, o in zip(cases, obs):
         if isinstance(o, dict) and '_crash' in o:
             inputs = c['explicit'] if 'explicit' in c else py_inputs(c)
@@ -643,17 +945,19 @@ def absorb_side(ctx, side, setup, cases, obs, requeue):
                     magic, idx = struct.unpack('<II', f.read(8))
                 if magic == MAGIC and idx < len(inputs):
                     detail = inputs[idx]
-                    requeue.append(inputs[:idx] + inputs[idx + 1:])
-                    ctx.case((side, 'died', detail[1]), sample={'text': detail[1][:200]})
+                    requeue.append((inputs[:idx] + inputs[idx + 1:], bool(c.get('seq'))))
+                    ctx.case((side, 'died', text_of(detail)),
+                             sample={'text': text_of(detail)[:200]})
             except (OSError, struct.error):
                 pass
             if detail is None:
                 ctx.count('inputs_lost_in_unattributed_crash', len(inputs))
-            shown = repr(detail[1][:300]) if detail else '(one input of the case)'
+            shown = repr(text_of(detail)[:300]) if detail else '(one input of the case)'
             if side == 'py' and 'Timeout (0:' in o.get('_stderr', ''):
                 ctx.count('resource_py_watchdog_kill')
                 ctx.note('watchdog (%d s) killed the child in FFI().%s(%s) (resource blow-up, not '
-                         'judged)' % (WATCHDOG, detail[0] if detail else '?', shown))
+                         'judged)' % (WATCHDOG, ('<history>' if isinstance(detail, dict) else
+                                                 detail[0]) if detail else '?', shown))
                 continue
             ctx.count('child_crashes')
             fatal = [x for x in core.split_reports(o.get('_san', ''))
@@ -688,7 +992,7 @@ def run_side(ctx, side, setup, cases, variant, **kw):
         requeue = []
         absorb_side(ctx, side, setup, cases, obs, requeue)
         cases = [{'side': side, 'no': 100000 * (rnd + 1) + i, 'explicit': rest, 'ctx':
-                  setup.get('ctx')} for i, rest in enumerate(requeue) if rest]
+                  setup.get('ctx'), 'seq': seq} for i, (rest, seq) in enumerate(requeue) if rest]
     lost = sum(len(c['explicit']) for c in cases)
     ctx.count('%s_inputs_not_evaluated_after_repeated_child_deaths' % side, lost)
     ctx.note('%d %s-side inputs were not evaluated: the child kept dying' % (lost, side))
@@ -855,15 +1159,22 @@ def run(ctx):
 
 def run_parts(ctx, rng):
     # ---- Python side (plain build, many processes)
-    npy = ctx.scale(16000, 200000)
+    npy = ctx.scale(11000, 160000)
     per = 250 if not ctx.thorough else 2000
     pycases = [{'side': 'py', 'seed': rng.getrandbits(48), 'n': per, 'no': i}
                for i in range(max(1, npy // per))]
+    # histories on one FFI object (about 4 calls each)
+    nseq = ctx.scale(1200, 14000)
+    per = 50 if not ctx.thorough else 500
+    pycases += [{'side': 'py', 'seq': True, 'seed': rng.getrandbits(48), 'n': per,
+                 'no': len(pycases) + i} for i in range(max(1, nseq // per))]
     run_side(ctx, 'py', make_setup(ctx, 'py'), pycases, 'plain',
              shard_size=max(1, len(pycases) // (core.NPROC * 2)))
     # ---- C side (ASan/UBSan build; one process: sanitized children do not scale here and each
     # one pays the start of the symbolizer at its first report)
     seeds = [rng.getrandbits(30) for _ in range(ctx.scale(3, 10))]
+    seeds[0] |= 1               # this context also declares functions and global variables
+    seeds[1] &= ~1
     setup = make_setup(ctx, 'c', seeds)
     nc = ctx.scale(40000, 400000)
     per = 2500 if not ctx.thorough else 20000
